@@ -831,8 +831,9 @@ JOIN_TYPES = ["inner", "left", "right", "full", "cross", "natural", "left outer"
 class Gen:
     """seeded random + enumerated construction of statements"""
 
-    def __init__(self, rnd, schemas=("sa", "sb"), qualify_p=0.3, alias_p=0.5):
+    def __init__(self, rnd, schemas=("sa", "sb"), qualify_p=0.3, alias_p=0.5, scalar_p=0.0):
         self.rnd, self.schemas, self.qualify_p, self.alias_p = rnd, schemas, qualify_p, alias_p
+        self.scalar_p = scalar_p  # probability that an operand of a select-item expression is a scalar sub-query
         self.nm = Names(rnd)
         # a second stream for purely syntactic decorations (extra parentheses), so that adding one does not shift the statements drawn from rnd
         self.aux = random.Random(20260926)
@@ -862,6 +863,13 @@ class Gen:
     def expr(self, rels, depth, col_fn):
         r = self.rnd
         if depth <= 0 or r.random() < 0.3:
+            if self.scalar_p and not getattr(self, "_in_scalar", False) and self.aux.random() < self.scalar_p:
+                # coalesce((select max(c) from t), a.x): a scalar sub-query as operand (never nested in another one)
+                self._in_scalar = True
+                try:
+                    return E("scalar", query=self.query(0, nitems=1, named=True, allow_setop=False))
+                finally:
+                    self._in_scalar = False
             return col_fn()
         k = r.choice(["arith", "func", "case", "cast", "window", "coalesce"])
         if k == "arith":
